@@ -86,6 +86,18 @@ PROPS = {
         "level_note": "trusted: Pillars.tla (Five Tigers from first principles), TermClock/Civil, TLC, harness logging",
         "technique": "TLA+ pillar model checked exhaustively with TLC + trace validation of day and instant views",
     },
+    "C09": {
+        "title": "hour pillar, 23:00 day roll-over and the eight-character round trip",
+        "mc": {"quick": [{"module": "MC_HourPillar", "cfg": "MC_HourPillar.cfg", "workers": 1}, {"module": "MC_Pillars", "cfg": "MC_Pillars.cfg", "workers": 2}]},
+        "rule": "Mode C: all 60 x 24 (day pillar, hour) cases generated by TLC from EightChar.tla, each replayed on a real date of three eras (4,320 events); 3,000 (quick) / 90,000 (thorough) seeded instants for the composition of the eight characters through both views; "
+                "300 / 6,000 inverse searches from seeded probe instants (double-hours containing a Jie skipped) over year ranges of 1, 3, 121 and random width. "
+                "Non-trivial: every table case, instants in the Zi double-hour or before Lichun, multi-year searches",
+        "exhaustive": {"quick": False, "thorough": False},
+        "assumptions": ["the governing term and the Lichun instant of an instant are the implementation's (C06, C08)"],
+        "level_text": "TLC enumerates the complete (day pillar, hour) case table of the hour-pillar model (Five Rats, 23:00 roll, legal pillar, +1 per double-hour through midnight) and every case is replayed in the real code on real dates of three eras; random instants have their eight characters re-derived from day number, governing term and Lichun instant and compared through both views; inverse searches are validated for soundness (every result has the characters) and completeness (a result inside the probe's double-hour)",
+        "level_note": "trusted: EightChar.tla / Pillars.tla, TLC, harness logging; the case table is exhaustive, compositions and searches are sampled",
+        "technique": "TLC-generated case table replayed into the code + trace validation of compositions and inverse searches",
+    },
     "C10": {
         "title": "answers do not depend on call history, thread interleaving or earlier refusals",
         "mc": {
